@@ -115,7 +115,35 @@ func (x *Exec) heapArr(st *State, class string, s *term.Sort) *T {
 	a := term.Var("H0!"+class, classSort(class, s))
 	st.Heap[class] = a
 	x.classSorts[class] = s
+	x.rangeAxiom(class, a)
 	return a
+}
+
+// rangeAxiom: every element of an integer-typed heap class lies in its Go type's range.
+func (x *Exec) rangeAxiom(class string, arr *T) {
+	ty := x.classTy[class]
+	if ty == nil {
+		return
+	}
+	lo, hi, ok := intRange(ty)
+	if !ok {
+		return
+	}
+	r := term.Bound("r", term.Int)
+	if strings.HasPrefix(class, "e:") {
+		i := term.Bound("i", term.Int)
+		e := term.Select(term.Select(arr, r), i)
+		if e.Sort != term.Int {
+			return
+		}
+		x.assumeOnce(term.ForallPat([]*T{r, i}, term.And(term.Le(lo, e), term.Le(e, hi)), [][]*T{{e}}))
+		return
+	}
+	e := term.Select(arr, r)
+	if e.Sort != term.Int {
+		return
+	}
+	x.assumeOnce(term.ForallPat([]*T{r}, term.And(term.Le(lo, e), term.Le(e, hi)), [][]*T{{e}}))
 }
 
 // initObj returns the init-region content for (class, ref) if ref is a constant in the init region.
@@ -194,6 +222,9 @@ func (x *Exec) loadAt(st *State, class, path string, ty types.Type, ref, idx *T)
 	cs := comps(ty)
 	ts := make([]*T, len(cs))
 	for i, c := range cs {
+		if c.ty != nil {
+			x.classTy[class+path+c.suffix] = c.ty
+		}
 		ts[i] = x.loadComp(st, class+path+c.suffix, c.sort, ref, idx)
 	}
 	v := mkVal(ty, ts)
@@ -303,6 +334,11 @@ func (x *Exec) initObject(st *State, t types.Type, ref *T) {
 		for _, c := range comps(t) {
 			a := x.heapArr(st, class+c.suffix, c.sort)
 			st.Heap[class+c.suffix] = term.Store(a, ref, zeroTerm(c.sort))
+		}
+		// ghost fields start at their zero value too
+		for name, gs := range x.P.ghostFieldsOf(typeKey(t)) {
+			a := x.heapArr(st, class+".$"+name, gs)
+			st.Heap[class+".$"+name] = term.Store(a, ref, zeroTerm(gs))
 		}
 		return
 	}
